@@ -31,8 +31,10 @@ TraceTables ==
 \* typed data row of a generated sheet (second row of the sheet's table)
 TraceTyped == IsEvent("Typed") /\ TypedRowOK(Ev.kinds, Ev.row, Traces[tid].hdr.fmt, Dev)
 
+TraceTypedGrid == IsEvent("TypedGrid") /\ TypedGridOK(Ev.kinds, Ev.grid, Traces[tid].hdr.fmt, Dev)
+
 TraceInit == tid \in 1..Len(Traces) /\ l = 1
-TraceNext == TraceText \/ TraceUnits \/ TraceTables \/ TraceTyped
+TraceNext == TraceText \/ TraceUnits \/ TraceTables \/ TraceTyped \/ TraceTypedGrid
 TraceSpec == TraceInit /\ [][TraceNext]_vars
 TraceAccept ==
     /\ (l = Len(Traces[tid].ev) + 1) => PrintT(<<"ACCEPT", tid>>)
